@@ -2,6 +2,7 @@ package main
 
 import (
 	"encoding/json"
+	"os/exec"
 	"flag"
 	"fmt"
 	"os"
@@ -92,12 +93,98 @@ func hasProp(h *Harness, p string) bool {
 	return false
 }
 
+// checkAcc accumulates the outcome of the harnesses processed by one process; sharded runs
+// (-jobs) merge the accumulators of their children.
+type checkAcc struct {
+	Reports       []oblReport        `json:"reports"`
+	Total         int                `json:"total"`
+	Discharged    int                `json:"discharged"`
+	Canaries      int                `json:"canaries"`
+	CanariesOK    int                `json:"canaries_ok"`
+	BySolver      map[string]int     `json:"by_solver"`
+	SolverTime    float64            `json:"solver_time"`
+	MaxT          float64            `json:"max_t"`
+	Assumed       map[string]bool    `json:"assumed"`
+	Inlined       map[string]bool    `json:"inlined"`
+	Fuc           map[string]bool    `json:"fuc"`
+	UsedContracts map[string]bool    `json:"used_contracts"`
+	Warnings      []string           `json:"warnings"`
+	Undecided     []string           `json:"undecided"`
+	Violations    int                `json:"violations"`
+	KnownHits     int                `json:"known_hits"`
+	ToolingErr    bool               `json:"tooling_err"`
+	NewLedger     []string           `json:"new_ledger"`
+	HarnessNames  []string           `json:"harness_names"`
+	Confirmations int                `json:"confirmations"`
+	Disagreements int                `json:"disagreements"`
+	LoadS         float64            `json:"load_s"`
+	HarnessTime   map[string]float64 `json:"harness_time"`
+}
+
+func newAcc() *checkAcc {
+	return &checkAcc{BySolver: map[string]int{}, Assumed: map[string]bool{}, Inlined: map[string]bool{}, Fuc: map[string]bool{},
+		UsedContracts: map[string]bool{}, HarnessTime: map[string]float64{}}
+}
+
+func (a *checkAcc) merge(b *checkAcc) {
+	a.Reports = append(a.Reports, b.Reports...)
+	a.Total += b.Total
+	a.Discharged += b.Discharged
+	a.Canaries += b.Canaries
+	a.CanariesOK += b.CanariesOK
+	for k, v := range b.BySolver {
+		a.BySolver[k] += v
+	}
+	a.SolverTime += b.SolverTime
+	if b.MaxT > a.MaxT {
+		a.MaxT = b.MaxT
+	}
+	for k := range b.Assumed {
+		a.Assumed[k] = true
+	}
+	for k := range b.Inlined {
+		a.Inlined[k] = true
+	}
+	for k := range b.Fuc {
+		a.Fuc[k] = true
+	}
+	for k := range b.UsedContracts {
+		a.UsedContracts[k] = true
+	}
+	a.Warnings = append(a.Warnings, b.Warnings...)
+	a.Undecided = append(a.Undecided, b.Undecided...)
+	a.Violations += b.Violations
+	a.KnownHits += b.KnownHits
+	a.ToolingErr = a.ToolingErr || b.ToolingErr
+	a.NewLedger = append(a.NewLedger, b.NewLedger...)
+	a.HarnessNames = append(a.HarnessNames, b.HarnessNames...)
+	a.Confirmations += b.Confirmations
+	a.Disagreements += b.Disagreements
+	if b.LoadS > a.LoadS {
+		a.LoadS = b.LoadS
+	}
+	for k, v := range b.HarnessTime {
+		a.HarnessTime[k] = v
+	}
+}
+
+func loadTimings() map[string]float64 {
+	t := map[string]float64{}
+	if b, err := os.ReadFile(filepath.Join(verifDir, "baseline", "timings.json")); err == nil {
+		json.Unmarshal(b, &t)
+	}
+	return t
+}
+
 func cmdCheck(args []string) int {
 	fs := flag.NewFlagSet("check", flag.ExitOnError)
 	prop := fs.String("prop", "", "property id")
 	tier := fs.String("tier", "quick", "quick|thorough")
 	writeLedger := fs.Bool("write-ledger", false, "record discharged obligations as the baseline (never used by registered checks)")
 	dump := fs.String("smt", "", "dump SMT queries here")
+	jobs := fs.Int("jobs", 1, "number of worker processes (harnesses are distributed over them)")
+	shard := fs.String("shard", "", "k/n: process only the harnesses of shard k of n (internal, used by -jobs)")
+	partial := fs.String("partial", "", "write the accumulator of this shard here (internal)")
 	fs.Parse(args)
 	if *prop == "" {
 		fmt.Fprintln(os.Stderr, "check: -prop required")
@@ -112,6 +199,197 @@ func cmdCheck(args []string) int {
 	if s := os.Getenv("VERIF_SEED"); s != "" {
 		seed, _ = strconv.Atoi(s)
 	}
+	var acc *checkAcc
+	if *jobs > 1 && *shard == "" {
+		acc = runShards(*prop, *tier, *jobs, *dump)
+	} else {
+		acc = checkShard(*prop, *tier, *shard)
+		if *partial != "" {
+			b, _ := json.Marshal(acc)
+			os.WriteFile(*partial, b, 0o644)
+			return 0
+		}
+	}
+	if len(acc.HarnessNames) == 0 && !acc.ToolingErr {
+		fmt.Printf("TOOLING-ERROR: no harness is tagged with property %s\n", *prop)
+		acc.ToolingErr = true
+	}
+	ledger := loadLedger()
+	inLedger := map[string]bool{}
+	for _, n := range ledger.Discharged[*prop] {
+		inLedger[n] = true
+	}
+	// obligations that were in the ledger but no longer exist are reported (not an alarm)
+	missing := 0
+	have := map[string]bool{}
+	for _, r := range acc.Reports {
+		have[r.Name] = true
+	}
+	for n := range inLedger {
+		if !have[n] {
+			missing++
+		}
+	}
+	sort.Strings(acc.HarnessNames)
+	sort.Slice(acc.Reports, func(i, j int) bool { return acc.Reports[i].Name < acc.Reports[j].Name })
+
+	if *writeLedger {
+		sort.Strings(acc.NewLedger)
+		ledger.Discharged[*prop] = acc.NewLedger
+		ledger.Harnesses[*prop] = acc.HarnessNames
+		b, _ := json.MarshalIndent(ledger, "", " ")
+		os.MkdirAll(filepath.Join(verifDir, "baseline"), 0o755)
+		os.WriteFile(filepath.Join(verifDir, "baseline", "ledger.json"), b, 0o644)
+		tm := loadTimings()
+		for k, v := range acc.HarnessTime {
+			tm[k] = float64(int(v*10)) / 10
+		}
+		tb, _ := json.MarshalIndent(tm, "", " ")
+		os.WriteFile(filepath.Join(verifDir, "baseline", "timings.json"), tb, 0o644)
+	}
+
+	// evidence
+	wall := time.Since(start).Seconds()
+	samples := []oblReport{}
+	for i, r := range acc.Reports {
+		if i%maxInt(1, len(acc.Reports)/8) == 0 && len(samples) < 10 {
+			samples = append(samples, r)
+		}
+	}
+	undecided := acc.Undecided
+	if undecided == nil {
+		undecided = []string{}
+	}
+	sort.Strings(undecided)
+	ev := map[string]interface{}{
+		"property_id": *prop,
+		"tier":        *tier,
+		"seed":        seed,
+		"level":       "proof",
+		"wall_s":      wall,
+		"violations":  acc.Violations,
+		"coverage": map[string]interface{}{
+			// obligations listed as known findings are reported separately (known_findings_hit)
+			// and are not part of the proof claim
+			"obligations":                 acc.Total - acc.KnownHits,
+			"discharged":                  acc.Discharged,
+			"obligations_generated":       acc.Total,
+			"checker_cmd":                 fmt.Sprintf("bin/govc check -prop %s -tier %s -jobs %d (go/ssa weakest-precondition VCs over /repo's working tree, discharged by z3-new 5.1.0 / cvc5 1.0.3 / z3 4.8.12)", *prop, *tier, *jobs),
+			"trusted_base":                trustedBase(),
+			"samples":                     samples,
+			"harnesses":                   acc.HarnessNames,
+			"functions_under_contract":    keys(acc.Fuc),
+			"contracts_applied":           keys(acc.UsedContracts),
+			"inlined_not_modular":         keys(acc.Inlined),
+			"by_solver":                   acc.BySolver,
+			"solver_time_s":               acc.SolverTime,
+			"max_obligation_s":            acc.MaxT,
+			"canaries":                    acc.Canaries,
+			"canaries_refuted":            acc.CanariesOK,
+			"known_findings_hit":          acc.KnownHits,
+			"undecided":                   undecided,
+			"ledger_obligations_missing":  missing,
+			"second_solver_confirmations": acc.Confirmations,
+			"solver_disagreements":        acc.Disagreements,
+			"load_s":                      acc.LoadS,
+			"worker_processes":            *jobs,
+			"warnings":                    uniq(acc.Warnings),
+			"int_width":                   intBits,
+		},
+		"assumptions": append(keys(acc.Assumed), globalAssumptions()...),
+	}
+	os.MkdirAll(filepath.Join(verifDir, "evidence"), 0o755)
+	b, _ := json.MarshalIndent(ev, "", " ")
+	os.WriteFile(filepath.Join(verifDir, "evidence", *prop+".json"), b, 0o644)
+
+	fmt.Printf("property %s: %d obligations, %d discharged, %d known findings, %d undecided, %d violations, canaries %d/%d, %.1fs\n",
+		*prop, acc.Total, acc.Discharged, acc.KnownHits, len(acc.Undecided), acc.Violations, acc.CanariesOK, acc.Canaries, wall)
+	if acc.Violations > 0 {
+		return 1
+	}
+	if acc.ToolingErr {
+		return 2
+	}
+	return 0
+}
+
+// runShards distributes the harnesses over worker processes and merges their accumulators.
+func runShards(prop, tier string, jobs int, dump string) *checkAcc {
+	acc := newAcc()
+	exe, err := os.Executable()
+	if err != nil {
+		fmt.Printf("TOOLING-ERROR: cannot find own executable: %v\n", err)
+		acc.ToolingErr = true
+		return acc
+	}
+	dir, err := os.MkdirTemp(filepath.Join(verifDir, "replays"), ".shards")
+	if err != nil {
+		os.MkdirAll(filepath.Join(verifDir, "replays"), 0o755)
+		dir, err = os.MkdirTemp(filepath.Join(verifDir, "replays"), ".shards")
+	}
+	if err != nil {
+		fmt.Printf("TOOLING-ERROR: cannot create shard directory: %v\n", err)
+		acc.ToolingErr = true
+		return acc
+	}
+	defer os.RemoveAll(dir)
+	type res struct {
+		k    int
+		out  []byte
+		err  error
+		file string
+	}
+	ch := make(chan res, jobs)
+	for k := 0; k < jobs; k++ {
+		go func(k int) {
+			f := filepath.Join(dir, fmt.Sprintf("part%d.json", k))
+			a := []string{"check", "-prop", prop, "-tier", tier, "-shard", fmt.Sprintf("%d/%d", k, jobs), "-partial", f}
+			if dump != "" {
+				a = append(a, "-smt", dump)
+			}
+			cmd := exec.Command(exe, a...)
+			cmd.Env = os.Environ()
+			out, err := cmd.CombinedOutput()
+			ch <- res{k, out, err, f}
+		}(k)
+	}
+	outs := make([]res, jobs)
+	for i := 0; i < jobs; i++ {
+		r := <-ch
+		outs[r.k] = r
+	}
+	for _, r := range outs {
+		os.Stdout.Write(r.out)
+		b, err := os.ReadFile(r.file)
+		if err != nil {
+			fmt.Printf("TOOLING-ERROR: worker %d produced no result (%v)\n", r.k, r.err)
+			acc.ToolingErr = true
+			continue
+		}
+		part := newAcc()
+		if err := json.Unmarshal(b, part); err != nil {
+			fmt.Printf("TOOLING-ERROR: worker %d result unreadable: %v\n", r.k, err)
+			acc.ToolingErr = true
+			continue
+		}
+		acc.merge(part)
+	}
+	return acc
+}
+
+// checkShard loads /repo and decides the harnesses of one shard ("" = all of them).
+func checkShard(propV, tierV, shard string) *checkAcc {
+	prop, tier := &propV, &tierV
+	acc := newAcc()
+	sk, sn := 0, 1
+	if shard != "" {
+		fmt.Sscanf(shard, "%d/%d", &sk, &sn)
+		if sn < 1 || sk < 0 || sk >= sn {
+			fmt.Printf("TOOLING-ERROR: bad shard %q\n", shard)
+			acc.ToolingErr = true
+			return acc
+		}
+	}
 	timeout := 20 * time.Second
 	if *tier == "thorough" {
 		timeout = 60 * time.Second
@@ -119,8 +397,10 @@ func cmdCheck(args []string) int {
 	w, err := loadWorld(allPatterns, "")
 	if err != nil {
 		fmt.Printf("TOOLING-ERROR: cannot load /repo with -tags verif: %v\n", err)
-		return 2
+		acc.ToolingErr = true
+		return acc
 	}
+	acc.LoadS = w.loadTime
 	ledger := loadLedger()
 	inLedger := map[string]bool{}
 	for _, n := range ledger.Discharged[*prop] {
@@ -128,59 +408,64 @@ func cmdCheck(args []string) int {
 	}
 	known := loadKnownFindings()
 
-	var reports []oblReport
-	total, discharged, canaries, canariesOK := 0, 0, 0, 0
-	bySolver := map[string]int{}
-	solverTime, maxT := 0.0, 0.0
-	assumed := map[string]bool{}
-	inlined := map[string]bool{}
-	fuc := map[string]bool{}
-	usedContracts := map[string]bool{}
-	var warnings []string
-	var undecided []string
-	violations := 0
-	knownHits := 0
-	toolingErr := false
-	var newLedger []string
-	var harnessNames []string
-	confirmations, disagreements := 0, 0
-
-	for _, n := range w.order {
-		h := w.harnesses[n]
-		if h.Kind == "extern" || !hasProp(h, *prop) {
-			continue
+	// the harnesses of the property, longest (by the recorded baseline timing) first, dealt
+	// round-robin to the shards
+	var mine []string
+	{
+		var all []string
+		for _, n := range w.order {
+			h := w.harnesses[n]
+			if h.Kind == "extern" || !hasProp(h, *prop) {
+				continue
+			}
+			all = append(all, n)
 		}
-		harnessNames = append(harnessNames, n)
+		tm := loadTimings()
+		sort.SliceStable(all, func(i, j int) bool { return tm[all[i]] > tm[all[j]] })
+		for i, n := range all {
+			if i%sn == sk {
+				mine = append(mine, n)
+			}
+		}
+		if len(all) == 0 {
+			return acc
+		}
+	}
+
+	for _, n := range mine {
+		h := w.harnesses[n]
+		hstart := time.Now()
+		acc.HarnessNames = append(acc.HarnessNames, n)
 		res := w.runHarness(h)
 		if res.Err != "" {
 			fmt.Printf("TOOLING-ERROR: harness %s cannot be decided: %s\n", n, firstLine(res.Err))
-			toolingErr = true
+			acc.ToolingErr = true
 			continue
 		}
 		if h.Target != nil {
-			fuc[fnName(h.Target)] = true
+			acc.Fuc[fnName(h.Target)] = true
 		}
 		for _, x := range res.Assumed {
-			assumed[x] = true
+			acc.Assumed[x] = true
 		}
 		for _, x := range res.Inlined {
-			inlined[x] = true
+			acc.Inlined[x] = true
 		}
 		for _, x := range res.Contracts {
-			usedContracts[x] = true
+			acc.UsedContracts[x] = true
 			if hn := w.contractHarnessByTarget(x); hn != nil {
 				switch {
 				case hn.Kind == "extern":
-					assumed["contract of "+x+" is trusted ("+hn.Name+")"] = true
+					acc.Assumed["contract of "+x+" is trusted ("+hn.Name+")"] = true
 				case len(hn.Props) == 0:
-					assumed["contract of "+x+" is assumed here: its harness "+hn.Name+" is not yet discharged under any property"] = true
+					acc.Assumed["contract of "+x+" is assumed here: its harness "+hn.Name+" is not yet discharged under any property"] = true
 				}
 			}
 		}
-		warnings = append(warnings, res.Warnings...)
+		acc.Warnings = append(acc.Warnings, res.Warnings...)
 		if len(res.Obls) == 0 {
 			fmt.Printf("TOOLING-ERROR: harness %s produced no obligation (vacuous)\n", n)
-			toolingErr = true
+			acc.ToolingErr = true
 			continue
 		}
 		to := timeout
@@ -191,44 +476,44 @@ func cmdCheck(args []string) int {
 		for i, o := range res.Obls {
 			v := res.Verdicts[i]
 			full := n + "/" + o.Name
-			solverTime += v.Time
-			if v.Time > maxT {
-				maxT = v.Time
+			acc.SolverTime += v.Time
+			if v.Time > acc.MaxT {
+				acc.MaxT = v.Time
 			}
-			bySolver[v.Solver]++
+			acc.BySolver[v.Solver]++
 			rep := oblReport{Name: full, Kind: o.Kind, Pos: fmt.Sprintf("%s:%d", shortFile(o.Pos.Filename), o.Pos.Line), Status: v.Status, Solver: v.Solver, TimeS: v.Time, SMTSize: v.SMTSize, Desc: o.Desc}
-			reports = append(reports, rep)
+			acc.Reports = append(acc.Reports, rep)
 			if o.Kind == "canary" {
-				canaries++
+				acc.Canaries++
 				if v.Status == "sat" {
-					canariesOK++
+					acc.CanariesOK++
 				} else {
 					fmt.Printf("TOOLING-ERROR: canary %s is not refutable (%s): hypotheses are contradictory or the check is vacuous\n", full, v.Status)
-					toolingErr = true
+					acc.ToolingErr = true
 				}
 				continue
 			}
-			total++
+			acc.Total++
 			if v.Status == "unsat" {
 				if *tier == "thorough" {
 					// independent confirmation by a second solver
 					c := solveReqDo("", solveReq{Query: res.engine.buildQuery(o, nil), TimeoutMs: 60000, Second: true})
 					if c.Status == "unsat" {
-						confirmations++
+						acc.Confirmations++
 					} else if c.Status == "sat" {
-						disagreements++
+						acc.Disagreements++
 						fmt.Printf("TOOLING-ERROR: solver disagreement on %s (%s unsat, %s sat)\n", full, v.Solver, c.Solver)
-						toolingErr = true
+						acc.ToolingErr = true
 					}
 				}
-				discharged++
-				newLedger = append(newLedger, full)
+				acc.Discharged++
+				acc.NewLedger = append(acc.NewLedger, full)
 				continue
 			}
 			// not discharged
 			if kf := matchKnown(known, *prop, full); kf != nil {
 				fmt.Printf("KNOWN-FINDING: property=%s %s [%s]\n", *prop, kf.what, full)
-				knownHits++
+				acc.KnownHits++
 				continue
 			}
 			rr := ReplayResult{}
@@ -237,102 +522,22 @@ func cmdCheck(args []string) int {
 			}
 			switch {
 			case rr.Reproduced:
-				violations++
+				acc.Violations++
 				fmt.Printf("VIOLATION property=%s replay=%s\n", *prop, rr.Path)
 				fmt.Printf("  obligation %s (%s) at %s fails; counterexample reproduced on the real code\n", full, o.Desc, rep.Pos)
 			case inLedger[full]:
-				violations++
+				acc.Violations++
 				path := writeNoInputReplay(*prop, full, o, v, rr)
 				fmt.Printf("VIOLATION property=%s replay=%s no-failing-input-found\n", *prop, path)
 				fmt.Printf("  obligation %s (%s) at %s was discharged on the baseline tree and is not any more (%s; %s)\n", full, o.Desc, rep.Pos, v.Status, rr.Note)
 			default:
-				undecided = append(undecided, full)
+				acc.Undecided = append(acc.Undecided, full)
 				fmt.Printf("UNDECIDED obligation=%s status=%s at %s (%s) %s\n", full, v.Status, rep.Pos, o.Desc, rr.Note)
 			}
 		}
+		acc.HarnessTime[n] = time.Since(hstart).Seconds()
 	}
-	if len(harnessNames) == 0 {
-		fmt.Printf("TOOLING-ERROR: no harness is tagged with property %s\n", *prop)
-		toolingErr = true
-	}
-	// obligations that were in the ledger but no longer exist are reported (not an alarm)
-	missing := 0
-	have := map[string]bool{}
-	for _, r := range reports {
-		have[r.Name] = true
-	}
-	for n := range inLedger {
-		if !have[n] {
-			missing++
-		}
-	}
-
-	if *writeLedger {
-		sort.Strings(newLedger)
-		ledger.Discharged[*prop] = newLedger
-		ledger.Harnesses[*prop] = harnessNames
-		b, _ := json.MarshalIndent(ledger, "", " ")
-		os.MkdirAll(filepath.Join(verifDir, "baseline"), 0o755)
-		os.WriteFile(filepath.Join(verifDir, "baseline", "ledger.json"), b, 0o644)
-	}
-
-	// evidence
-	wall := time.Since(start).Seconds()
-	samples := []oblReport{}
-	for i, r := range reports {
-		if i%maxInt(1, len(reports)/8) == 0 && len(samples) < 10 {
-			samples = append(samples, r)
-		}
-	}
-	ev := map[string]interface{}{
-		"property_id": *prop,
-		"tier":        *tier,
-		"seed":        seed,
-		"level":       "proof",
-		"wall_s":      wall,
-		"violations":  violations,
-		"coverage": map[string]interface{}{
-			// obligations listed as known findings are reported separately (known_findings_hit)
-			// and are not part of the proof claim
-			"obligations":              total - knownHits,
-			"discharged":               discharged,
-			"obligations_generated":    total,
-			"checker_cmd":              fmt.Sprintf("bin/govc check -prop %s -tier %s  (go/ssa weakest-precondition VCs over /repo's working tree, discharged by z3-new 5.1.0 / cvc5 1.0.3 / z3 4.8.12)", *prop, *tier),
-			"trusted_base":             trustedBase(),
-			"samples":                  samples,
-			"harnesses":                harnessNames,
-			"functions_under_contract": keys(fuc),
-			"contracts_applied":        keys(usedContracts),
-			"inlined_not_modular":      keys(inlined),
-			"by_solver":                bySolver,
-			"solver_time_s":            solverTime,
-			"max_obligation_s":         maxT,
-			"canaries":                 canaries,
-			"canaries_refuted":         canariesOK,
-			"known_findings_hit":       knownHits,
-			"undecided":                undecided,
-			"ledger_obligations_missing": missing,
-			"second_solver_confirmations": confirmations,
-			"solver_disagreements":     disagreements,
-			"load_s":                   w.loadTime,
-			"warnings":                 uniq(warnings),
-			"int_width":                intBits,
-		},
-		"assumptions": append(keys(assumed), globalAssumptions()...),
-	}
-	os.MkdirAll(filepath.Join(verifDir, "evidence"), 0o755)
-	b, _ := json.MarshalIndent(ev, "", " ")
-	os.WriteFile(filepath.Join(verifDir, "evidence", *prop+".json"), b, 0o644)
-
-	fmt.Printf("property %s: %d obligations, %d discharged, %d known findings, %d undecided, %d violations, canaries %d/%d, %.1fs\n",
-		*prop, total, discharged, knownHits, len(undecided), violations, canariesOK, canaries, wall)
-	if violations > 0 {
-		return 1
-	}
-	if toolingErr {
-		return 2
-	}
-	return 0
+	return acc
 }
 
 func maxInt(a, b int) int {
